@@ -13,7 +13,7 @@ import z3
 from engine.common.core import Obligation, Cover, mval
 from engine.pyvc.values import *
 from engine.pyvc import models
-from engine.pyvc.harness import toolkit, raw, where, new_engine, run_paths, path_obligations, register_fn, note_engine, qualname
+from engine.pyvc.harness import toolkit, raw, where, new_engine, run_paths, path_obligations, register_fn, note_engine, qualname, sect
 from contracts.py import msgs
 from contracts.py.common import view_of, install_validate_summaries, snapshot, attr
 from spec import valid_msg as V
@@ -53,11 +53,11 @@ def build(run, prop=ID):
     dm = toolkit("data_msg")
     E = new_engine()
     all_summ = install_validate_summaries()
-    build_tables(run, prop, dm)
-    build_gen(run, prop, dm, E, all_summ)
-    build_parse(run, prop, dm, E)
-    build_lemma(run, prop)
-    build_direct(run, prop, dm, E, all_summ)
+    sect(run, build_tables, run, prop, dm)
+    sect(run, build_gen, run, prop, dm, E, all_summ)
+    sect(run, build_parse, run, prop, dm, E)
+    sect(run, build_lemma, run, prop)
+    sect(run, build_direct, run, prop, dm, E, all_summ)
     note_engine(run, E)
     run.assume("soft bits of a valid Rx message lie in [-127,127] (C01 quantifier); -128 is outside the property")
     run.assume("message fields are int|None, burst bytearray (Tx) / array('b') (Rx); datagrams are bytes of any length")
@@ -240,7 +240,7 @@ def build_parse(run, prop, dm, E):
                 if out[0] == "raise":
                     if issubclass(out[1].cls, ValueError):
                         nraise += 1
-                        run.add(Obligation(prop, qualname(f), "rejects_only_unacceptable", p.pc, z3.Not(d["accept"]), kind="post",
+                        run.add(Obligation(prop, qualname(f), "rejects_only_unacceptable", p.pc, z3.Not(z3.And(d["accept"], L.dec_valid(cls, d))), kind="post",
                                            case=cs, where=where(f), tag=tag))
                     else:
                         run.add(Obligation(prop, qualname(f), "only_ValueError", p.pc, z3.BoolVal(False), kind="noexc",
@@ -418,6 +418,7 @@ def concrete_dec(cls, data):
             continue
         s = z3.simplify(t)
         out[k_] = s.as_long() if z3.is_int_value(s) else z3.is_true(s)
+    out["must_accept"] = bool(out["accept"]) and z3.is_true(z3.simplify(L.dec_valid(cls, d)))
     if out["accept"] and not out["burst_none"]:
         out["burst"] = [z3.simplify(d["bget"](z3.IntVal(i))).as_long() for i in range(out["blen"])]
     return out
@@ -482,7 +483,8 @@ def replay(payload):
         except Exception as e:
             return {"confirmed": True, "observed": "raises %s" % type(e).__name__, "expected": "only ValueError"}
         if obs == "ValueError":
-            return {"confirmed": bool(d["accept"]), "observed": obs, "expected": "accepted" if d["accept"] else "ValueError"}
+            return {"confirmed": bool(d["must_accept"]), "observed": obs,
+                    "expected": "accepted (acceptable layout, decoded values inside the protocol ranges)" if d["must_accept"] else "ValueError allowed"}
         if not d["accept"]:
             return {"confirmed": True, "observed": got, "expected": "ValueError (not acceptable per layout)"}
         bad = []
